@@ -45,6 +45,9 @@ CLAIMED = {
  "C04": ("dominance and must-pass-through on the go/cfg of loadAOF",
          "the tail-repair protocol of loadAOF: bytes read are counted before parsing; on EOF with an incomplete remainder the size is moved back by its length, the file truncated there and the write offset moved there (truncate and seek paired on all normal paths, errors returned); NUL bytes are tested and skipped before every parse; a non-empty remainder is carried to the next chunk",
          "that the recovered state equals the prefix state (value-level) and RESP framing (library)"),
+ "C06": ("dominating-guard extraction and must-pass-through on go/cfg; sibling agreement reset ~ FLUSHDB; command-table read gate",
+         "the resync protocol: caught-up is declared only under own position >= leader's aof_size and cleared before every reconnect; the position handed to the leader describes the local state (position 0 only after the log was re-created and the dataset reset; a truncated position only after truncate → reset → reload → size check); reset clears everything FLUSHDB clears; replicated commands are applied and logged under one exclusive critical section that also covers the generation test; object reads are gated until the follower has caught up once",
+         "convergence under arbitrary fault sequences and the checksum search itself"),
 }
 
 NOT_APPLICABLE = {
